@@ -96,6 +96,7 @@ type target struct {
 	tsRef int64
 	model bool // the Coq model covers this request (non-audio)
 	name  string
+	kind  string // reported track kind when it differs from r.Kind (generated subtitles)
 }
 
 func run(c *lib.Ctx) error {
@@ -229,6 +230,74 @@ func run(c *lib.Ctx) error {
 		}
 	}
 
+	// the top of the 32-bit number range: with a start number just below 2^32 the numbers up to 2^32-1 go
+	// through the phases like any other, the next one does not exist
+	for ai, a := range assets {
+		for ri, r := range a.Reps {
+			if ai > 2 && r.Kind != "video" {
+				continue
+			}
+			ref := a.Ref()
+			cfg := lib.TLCfg{StartS: []int64{0, 30}[(ai+ri)%2], Snr: 4294967290, Tsbd: []int64{-1, 0, 60}[(ai+ri)%3], Mode: "number"}
+			for _, n := range []int64{4, 5} {
+				t := target{a: a, r: r, cfg: cfg, n: n, name: fmt.Sprintf("rep_%d_%d", ai, ri), model: r.Kind != "audio", segID: cfg.EffSnr() + n}
+				if r.Kind == "audio" {
+					t.endT, t.tsRef = ref.LoopE(n), ref.Timescale
+				} else {
+					t.endT, t.tsRef = r.LoopE(n), r.Timescale
+				}
+				targets = append(targets, t)
+			}
+		}
+	}
+
+	// generated subtitle tracks (timesubsstpp_/timesubswvtt_): they follow the reference segments; by $Number$ and,
+	// where the reference segment starts on a whole millisecond, by $Time$ (timescale 1000)
+	for ai, a := range assets {
+		ref := a.Ref()
+		if ref == nil || ref.Kind != "video" {
+			continue
+		}
+		N := int64(len(ref.Segs))
+		for k, sub := range []struct{ extra, id string }{{"timesubsstpp_en/", "timestpp-en"}, {"timesubswvtt_sv/", "timewvtt-sv"}} {
+			pseudo := &lib.TLRep{VodRep: ref.VodRep, Kind: "image", Ext: ".m4s"} // observed by status only
+			vr := *ref.VodRep
+			vr.ID = sub.id
+			pseudo.VodRep = &vr
+			for j, cfg := range []lib.TLCfg{
+				{StartS: 30, Snr: -1, Tsbd: -1, Mode: "tlt", Extra: sub.extra},
+				{StartS: 0, Snr: 7, Tsbd: 60, Mode: "number", Extra: sub.extra},
+				{StartS: 1600000000, Snr: -1, Tsbd: 0, Mode: "tlt", Extra: sub.extra},
+			} {
+				if j > 0 && (ai+k+j)%2 == 1 && !c.Thorough() {
+					continue
+				}
+				ns := []int64{1 + rng.Int63n(3*N), 60 + rng.Int63n(200), N*(2+rng.Int63n(3)) - 1}
+				if cfg.Mode == "tlt" && j == 0 {
+					// $Time$ in ms is converted back to reference ticks: every small index, powers of two and their
+					// neighbours (float and integer conversions differ for particular values only)
+					for n := int64(0); n <= 12; n++ {
+						ns = append(ns, n)
+					}
+					for p := int64(16); p <= 4096; p *= 2 {
+						ns = append(ns, p, p+3)
+					}
+				}
+				for _, n := range ns {
+					t := target{a: a, r: pseudo, cfg: cfg, n: n, kind: "gensub", endT: ref.LoopE(n), tsRef: ref.Timescale, segID: cfg.EffSnr() + n}
+					if cfg.Mode == "tlt" {
+						ms := ref.LoopS(n) * 1000
+						if ms%ref.Timescale != 0 {
+							continue // off the millisecond grid: C12 finding c12-off-ms-grid-time-request
+						}
+						t.segID = ms / ref.Timescale
+					}
+					targets = append(targets, t)
+				}
+			}
+		}
+	}
+
 	// findings stream: the request on which the unchanged code is known to deviate (known_findings.json)
 	for _, a := range assets {
 		if strings.Contains(a.Path, "14.985_29.97") {
@@ -310,7 +379,11 @@ func run(c *lib.Ctx) error {
 			if now < 0 {
 				continue
 			}
-			in := c04in{Asset: t.a.Path, Rep: t.r.ID, Kind: t.r.Kind, Cfg: t.cfg, N: t.n, SegID: t.segID, NowMS: now, Want: wantOf(now), Edge: edgeOf(now)}
+			kind := t.r.Kind
+			if t.kind != "" {
+				kind = t.kind
+			}
+			in := c04in{Asset: t.a.Path, Rep: t.r.ID, Kind: kind, Cfg: t.cfg, N: t.n, SegID: t.segID, NowMS: now, Want: wantOf(now), Edge: edgeOf(now)}
 			in.URL = lib.SegURL(t.a, t.cfg, t.r, t.segID, now)
 			jobs = append(jobs, &job{in: in, t: t, sweep: si})
 		}
@@ -323,6 +396,12 @@ func run(c *lib.Ctx) error {
 			in := c04in{Asset: a.Path, Rep: ref.ID, Kind: "video", Cfg: cfg, N: -1, SegID: id, NowMS: 100000, Want: 4}
 			in.URL = lib.SegURL(a, cfg, ref, id, 100000)
 			jobs = append(jobs, &job{in: in, t: target{a: a, r: ref, cfg: cfg, segID: id, model: true, name: "rep_none"}, sweep: -1})
+		}
+		cfgTop := lib.TLCfg{Snr: 4294967290, Tsbd: -1, Mode: "number"}
+		for _, id := range []int64{4294967296, 4294967297, 8589934591} {
+			in := c04in{Asset: a.Path, Rep: ref.ID, Kind: "video", Cfg: cfgTop, N: -1, SegID: id, NowMS: 20000, Want: 4}
+			in.URL = lib.SegURL(a, cfgTop, ref, id, 20000)
+			jobs = append(jobs, &job{in: in, t: target{a: a, r: ref, cfg: cfgTop, segID: id, model: true, name: "rep_none"}, sweep: -1})
 		}
 		if au := a.Rep("A48"); au != nil {
 			in := c04in{Asset: a.Path, Rep: au.ID, Kind: "audio", Cfg: cfg, N: -1, SegID: 3, NowMS: 100000, Want: 4}
